@@ -979,6 +979,9 @@ type VerifRuntimeAPI struct {
 func (a *VerifRuntimeAPI) Dead() bool        { return a.p.dead }
 func (a *VerifRuntimeAPI) Name() string      { return a.p.name }
 func (a *VerifRuntimeAPI) Exit(status int32) { a.w.sup.exit(a.p, status, 0) }
+
+// ExitWith: the process ends with the exit status or, if signo != 0, killed by that signal
+func (a *VerifRuntimeAPI) ExitWith(status, signo int32) { a.w.sup.exit(a.p, status, signo) }
 func (a *VerifRuntimeAPI) Next() (int, string, string) {
 	r := a.w.runtimeNext(a.p.name)
 	return r.status, r.hdr.Get("Lambda-Runtime-Aws-Request-Id"), string(r.body)
@@ -1036,6 +1039,11 @@ func (a *VerifExtAPI) Dead() bool { return a.p != nil && a.p.dead }
 func (a *VerifExtAPI) Exit(status int32) {
 	if a.p != nil {
 		a.w.sup.exit(a.p, status, 0)
+	}
+}
+func (a *VerifExtAPI) ExitWith(status, signo int32) {
+	if a.p != nil {
+		a.w.sup.exit(a.p, status, signo)
 	}
 }
 func (a *VerifExtAPI) Register(name string, events []string) (int, string, string) {
